@@ -11,8 +11,8 @@ RULE = ('score tensors N(1-8) x C(2-40) x T(1-60) built from a chosen arg-max pa
 ASSUMPTIONS = ['for exact arg-max ties (class exact_ties: quantised outputs) only the agreement of the engine decoder and the stand-alone decoder is required (the statement gives no tie rule for the reference collapse); frames of engine output with margin < 1e-4 are skipped as ambiguous elsewhere',
                'blank is the last class; 3-D tensors only (the 2-D branch of the engine decoder is not reachable from the repository)']
 N = {'quick': 5000, 'thorough': 300000}
-CLASSES = ['random', 'lead_trail_blank', 'all_blank', 'repeats_split', 'first_nonblank', 'last_class', 'identical_rows', 'different_rows', 'single_frame', 'engine', 'exact_ties', 'large_alphabet', 'near_ties', 'engine_near_ties', 'long_lines']
-REQUIRED = ['lines_over_4096_frames', 'separator_reassigned_on_a_live_decoder', 'near_tie_engine_lines', 'alphabets_over_256_classes', 'near_tie_lines', 'earlier_run_ocr_results_rechecked', 'separator_lines', 'run_ocr_logits_compared', 'tie_lines', 'engine_lines', 'standalone_lines', 'filtration_lines', 'run_ocr_lines']
+CLASSES = ['random', 'lead_trail_blank', 'all_blank', 'repeats_split', 'first_nonblank', 'last_class', 'identical_rows', 'different_rows', 'single_frame', 'engine', 'exact_ties', 'large_alphabet', 'near_ties', 'engine_near_ties', 'long_lines', 'huge_scores']
+REQUIRED = ['tensors_with_scores_in_the_thousands', 'lines_over_4096_frames', 'separator_reassigned_on_a_live_decoder', 'near_tie_engine_lines', 'alphabets_over_256_classes', 'near_tie_lines', 'earlier_run_ocr_results_rechecked', 'separator_lines', 'run_ocr_logits_compared', 'tie_lines', 'engine_lines', 'standalone_lines', 'filtration_lines', 'run_ocr_lines']
 
 
 def setup(ctx):
@@ -134,7 +134,10 @@ def gen(rng, i, ctx):
         # runs, so that repeats actually occur
         rep = int(rng.integers(1, 4))
         am = np.repeat(am[:, :max(1, (T + rep - 1) // rep)], rep, axis=1)[:, :T]
-    sc = rng.normal(size=(N_, C, T)).astype(np.float32) * float(rng.choice([0.1, 1.0, 5.0]))
+    sc = rng.normal(size=(N_, C, T)).astype(np.float32) * float(rng.choice([0.1, 1.0, 5.0]) if cls != 'huge_scores' else rng.choice([400.0, 3000.0]))
+    if cls == 'huge_scores':
+        sc += float(rng.choice([0.0, 1500.0, -1500.0]))            # raw scores in the thousands (an exported net without its final normalisation)
+        am[:, 0] = rng.integers(0, max(1, C - 1), size=N_)           # and a line that starts with a character in its very first frame
     top = sc.max(axis=1) + 0.01 + rng.random((N_, T)).astype(np.float32)
     np.put_along_axis(sc, am[:, None, :], top[:, None, :], axis=1)
     return {'cls': cls, 'am': am, 'scores': sc, 'C': C}
@@ -243,6 +246,8 @@ def check(case, mon, ctx):
     chars = [chr(0x61 + k) for k in range(C - 1)] if C <= 41 else [chr(0x3400 + k + (0x800 if 0x3400 + k >= 0xD800 else 0)) for k in range(C - 1)]
     if C > 256:
         mon.count('alphabets_over_256_classes')
+    if case['cls'] == 'huge_scores':
+        mon.count('tensors_with_scores_in_the_thousands')
     if case['cls'] == 'near_ties':
         # no conversion between the matrix and the decoders: the arg-max of every frame is well defined whenever the two best values differ at all
         m = case['matrix']
